@@ -25,6 +25,12 @@ const fhirQuantityRegexp = `^(?P<value>(\+|-)?\d+(\.\d+)?)\s*('(?P<unit>[^']+)'|
 
 var regex = regexp.MustCompile(fhirQuantityRegexp)
 
+// String renderings accepted by toDecimal and toTime.
+var (
+	decimalRegexp = regexp.MustCompile(`^(\+|-)?\d+(\.\d+)?$`)
+	timeRegexp    = regexp.MustCompile(`^\d\d(:\d\d(:\d\d(\.\d+)?)?)?$`)
+)
+
 // ConvertsToBoolean checks if the input can be converted to a Boolean
 // FHIRPath docs here: https://hl7.org/fhirpath/N1/#convertstoboolean-boolean
 func ConvertsToBoolean(ctx *expr.Context, input system.Collection, args ...expr.Expression) (system.Collection, error) {
@@ -287,6 +293,9 @@ func ToDate(ctx *expr.Context, input system.Collection, args ...expr.Expression)
 		}
 		return system.Collection{result}, nil
 	case system.String:
+		if strings.HasPrefix(string(value), "@") {
+			return system.Collection{}, nil // '@' belongs to the literal syntax, not to the string form
+		}
 		result, err := system.ParseDate(string(value))
 		if err != nil {
 			return system.Collection{}, nil
@@ -322,6 +331,9 @@ func ToDateTime(ctx *expr.Context, input system.Collection, args ...expr.Express
 	case system.DateTime:
 		return system.Collection{value}, nil
 	case system.String:
+		if strings.HasPrefix(string(value), "@") {
+			return system.Collection{}, nil // '@' belongs to the literal syntax, not to the string form
+		}
 		result, err := system.ParseDateTime(string(value))
 		if err != nil {
 			return system.Collection{}, nil
@@ -363,6 +375,10 @@ func ToDecimal(ctx *expr.Context, input system.Collection, args ...expr.Expressi
 		return system.Collection{result}, nil
 	case system.String:
 		str := fmt.Sprintf("%s", value)
+		// Only (+|-)d+(.d+)? converts; the decimal library would also take "1.", ".5" or "1e3".
+		if !decimalRegexp.MatchString(str) {
+			return system.Collection{}, nil
+		}
 		result, err := system.ParseDecimal(str)
 		if err != nil {
 			return system.Collection{}, nil
@@ -591,6 +607,10 @@ func ToTime(ctx *expr.Context, input system.Collection, args ...expr.Expression)
 	case system.Time:
 		return system.Collection{value}, nil
 	case system.String:
+		// hh(:mm(:ss(.fff)?)?)? only: no literal prefix, no single-digit hour.
+		if !timeRegexp.MatchString(string(value)) {
+			return system.Collection{}, nil
+		}
 		result, err := system.ParseTime(fmt.Sprintf("%v", value))
 		if err != nil {
 			return system.Collection{}, nil
